@@ -738,13 +738,15 @@ def run(ctx):
         dt = rng.choice(POOL)
         k = rng.choice([0, 1, 2, 3, 5, 8, 8, 13, 40])
         if i % 400 == 7:
-            k = rng.choice([255, 256, 257, 1024] + ([] if ctx.quick else [4096, 65536]))      # item counts at which a bulk path could take over
+            k = rng.choice([255, 256, 257, 1024] + ([] if ctx.quick else [4096, 2048]))      # item counts at which a bulk path could take over
         items = [dt.rng_value(rng) for _ in range(k)]
         if k >= 255 and rng.random() < 0.5:
             items = [items[0]] * k if rng.random() < 0.5 else (items[:2] * k)[:k]               # ... and uniform / periodic content
         tr = rb(rng, rng.choice([0, 0, 0, 1, max(dt.width - 1, 0)])) if dt.width > 1 else ''
         case = {'dtype': dt.spec, 'items': items, 'trailing': tr, 'steps': []}
         ns = rng.randint(6, 12) if ctx.quick else rng.randint(6, 40)
+        if k >= 255:
+            ns = min(ns, 10 if k <= 1024 else 6)            # (every step re-reads the whole Array: keep long Arrays to short programs)
         ctx.run_case(lambda x, kk: list_program(x, kk, ns), case)
         if i % 499 == 0:
             ctx.sample({'dtype': dt.spec, 'items': items[:5], 'trailing': tr, 'steps': case['steps'][:5]})
